@@ -124,7 +124,7 @@ def pArr : P (Arr Float) := fun ts => do
   | _ => none
 
 /-- prefix notation of the untyped tree:
-      sym n | fn f n | sub f n skip limit q | bc 0/1 | cmp op l lit | in l arr | bet l lo hi
+      sym n | fn f n | sub f n <nsort> {field asc|desc}* skip limit q | bc 0/1 | cmp op l lit | in l arr | bet l lo hi
       | notE e | unot e | and l r | or l r -/
 partial def parseU : P (U Float) := fun ts => do
   let (t, r) ← tok ts
@@ -137,10 +137,12 @@ partial def parseU : P (U Float) := fun ts => do
   | "sub" => do
     let (f, r) ← tok r; let fn ← pFn f
     let (n, r) ← tok r
+    let (ns, r) ← pNat r
+    let (so, r) ← rep (fun ts => do let (f, r) ← tok ts; let (d, r) ← tok r; pure ((f, d == "asc"), r)) ns r
     let (sk, r) ← pOptInt r
     let (li, r) ← pOptInt r
     let (q, r) ← parseU r
-    pure (.setFnSub fn n q sk li, r)
+    pure (.setFnSub fn n q so sk li, r)
   | "bc" => do let (b, r) ← tok r; pure (.boolC (b == "1"), r)
   | "cmp" => do
     let (o, r) ← tok r; let op ← pOp o
@@ -258,25 +260,68 @@ def mSpec (c : MCase) : String :=
 /-! ### `b` cases: bbolt-backed stores
 
      b <nstores> {<store>}* <root store> <nfmt> {<bits> <hex>}* <filter> @ <zitiql-hex>
-       store = <nsyms> {<name> id|field|set <type> <linked store|->}* <nmaps> {<name> <type>}* <nrows> {<row>}*
-       row   = <id-hex> <nfields> {<key> <value>}* <nsets> {<key> <set>}* <nmaps> {<mapkey> <n> {<key> <value>}*}* -/
+       store = <nsyms> {<name> id|field|set <type> <linked store|->}* <nmaps> {<name> <type> <key> <npfx> <pfx>*}*
+               <parent store|-> <extended 0|1> <nearly> <npath> <path>* <nrows> {<row>}*
+       row   = <id-hex> <nfields> {<key> <value>}* <nsets> {<key> <set>}* <nbuckets> {<key> <node>}*
+       node  = v <value> | b <n> {<key> <node>}* | l <n> <node>*       (the non-set sub-buckets of the entity bucket) -/
 
-def pSymDef : P (String × SymDef) := fun ts => do
+/-- the table behind an external symbol: kind (b = NewBoolFuncSymbol, s = NewStringFuncSymbol, f = a
+    custom EntitySymbol), the values for the listed ids, the value for every other id -/
+structure ExtTab where
+  kind : String
+  entries : List (Bytes × SVal Float)
+  dflt : SVal Float
+
+def ExtTab.src (t : ExtTab) : ExtSrc Float :=
+  let at_ (id : Bytes) : SVal Float := (t.entries.lookup id).getD t.dflt
+  match t.kind with
+  | "b" => .boolFn fun id => match at_ id with | .bool b => b | _ => false
+  | "s" => .strFn fun id => match at_ id with | .str s => some s | _ => none
+  | _ => .fn at_
+
+/--   <name> id|field|set <type> <linked|->
+    | <name> ext <type> - b|s|f <n> {<id-hex> <value>}*n <default value>
+    | <name> mapped <type> <linked|-> <key> <mapper id> -/
+def pSymDef : P ((String × SymDef) × Option ExtTab) := fun ts => do
   let (n, r) ← tok ts
   let (k, r) ← tok r
   let (t, r) ← tok r; let ty ← pType t
   let (l, r) ← tok r
   let linked : Option Nat := if l = "-" then none else l.toNat?
   match k with
-  | "id" => pure ((n, .id), r)
-  | "field" => pure ((n, .field ty linked), r)
-  | "set" => pure ((n, .set ty linked), r)
+  | "id" => pure (((n, .id), none), r)
+  | "field" => pure (((n, .field ty linked), none), r)
+  | "set" => pure (((n, .set ty linked), none), r)
+  | "ext" => do
+    let (fk, r) ← tok r
+    let (cnt, r) ← pNat r
+    let (es, r) ← rep (fun ts => do let (id, r) ← pBytes ts; let (v, r) ← pVal r; pure ((id, v), r)) cnt r
+    let (d, r) ← pVal r
+    pure (((n, .custom none ty none .ext), some { kind := fk, entries := es, dflt := d }), r)
+  | "mapped" => do
+    let (key, r) ← tok r
+    let (m, r) ← pNat r
+    pure (((n, .custom none ty linked (.mapped key m)), none), r)
   | _ => none
 
-def pMapDef : P (String × NodeType) := fun ts => do
+/-- the `SymbolMapper`s the harness registers: 0 = the exported `NotNilStringMapper`; 1 = strings get the
+    prefix "M"; 2 = bools are negated, everything else becomes null -/
+def mapperOf (m : Nat) (v : SVal Float) : SVal Float :=
+  match m, v with
+  | 0, .nil => .str []
+  | 0, v => v
+  | 1, .str s => .str (77 :: s)
+  | 1, v => v
+  | _, .bool b => .bool (!b)
+  | _, _ => .nil
+
+def pMapDef : P (String × MapDef) := fun ts => do
   let (n, r) ← tok ts
   let (t, r) ← tok r; let ty ← pType t
-  pure ((n, ty), r)
+  let (k, r) ← tok r
+  let (np, r) ← pNat r
+  let (pfx, r) ← rep tok np r
+  pure ((n, { ty := ty, key := k, pfx := pfx }), r)
 
 def pKV : P (String × SVal Float) := fun ts => do
   let (k, r) ← tok ts
@@ -288,11 +333,27 @@ def pKSet : P (String × List (SVal Float)) := fun ts => do
   let (v, r) ← pSet r
   pure ((k, v), r)
 
-def pKMap : P (String × List (String × SVal Float)) := fun ts => do
+/-- node = v <value> | b <n> {<key> <node>}*n | l <n> <node>*n   (a list is a bucket keyed by its
+    indices and the list-size key, which no identifier spells: `#0`, `#1`, …, `#size`) -/
+partial def pNode : P (MNode Float) := fun ts => do
+  let (t, r) ← tok ts
+  match t with
+  | "v" => do let (v, r) ← pVal r; pure (.val v, r)
+  | "b" => do
+    let (n, r) ← pNat r
+    let (kids, r) ← rep (fun ts => do let (k, r) ← tok ts; let (nd, r) ← pNode r; pure ((k, nd), r)) n r
+    pure (.bucket kids, r)
+  | "l" => do
+    let (n, r) ← pNat r
+    let (items, r) ← rep pNode n r
+    let kids := (List.range n).zip items |>.map fun (i, nd) => ("#" ++ toString i, nd)
+    pure (.bucket (kids ++ [("#size", .val (.int32 n))]), r)
+  | _ => none
+
+def pKMap : P (String × MNode Float) := fun ts => do
   let (k, r) ← tok ts
-  let (n, r) ← pNat r
-  let (m, r) ← rep pKV n r
-  pure ((k, m), r)
+  let (nd, r) ← pNode r
+  pure ((k, nd), r)
 
 def pEntity : P (Entity Float) := fun ts => do
   let (id, r) ← pBytes ts
@@ -304,14 +365,42 @@ def pEntity : P (Entity Float) := fun ts => do
   let (maps, r) ← rep pKMap nm r
   pure ({ id := id, fields := fields, sets := sets, maps := maps }, r)
 
-def pStore : P (StoreDef × List (Entity Float)) := fun ts => do
+/-- a store as registered: own symbols (the first `nearly` before `parent.GrantSymbols(child)`), own
+    map symbols (after it), parent, extended -/
+structure RawStore where
+  syms : List (String × SymDef)
+  exts : List (String × ExtTab)
+  maps : List (String × MapDef)
+  parent : Option Nat
+  extended : Bool
+  nearly : Nat
+
+def pStore : P (RawStore × List (Entity Float)) := fun ts => do
   let (k, r) ← pNat ts
-  let (syms, r) ← rep pSymDef k r
+  let (symsT, r) ← rep pSymDef k r
+  let syms := symsT.map (·.1)
+  let exts := symsT.filterMap fun e => e.2.map fun t => (e.1.1, t)
   let (nm, r) ← pNat r
   let (maps, r) ← rep pMapDef nm r
+  let (par, r) ← tok r
+  let (ext, r) ← tok r
+  let (nearly, r) ← pNat r
+  let (np, r) ← pNat r
+  let (_path, r) ← rep tok np r          -- where the child data lives: used by the harness only
   let (nr, r) ← pNat r
   let (rows, r) ← rep pEntity nr r
-  pure (({ syms := syms, maps := maps }, rows), r)
+  pure (({ syms := syms, exts := exts, maps := maps, parent := if par = "-" then none else par.toNat?, extended := ext == "1",
+           nearly := nearly }, rows), r)
+
+/-- the symbol tables after registration, stores in index order (a parent precedes its children):
+    `symbols.Put` replaces an entry of the same name, i.e. the latest registration is found first -/
+def buildDefs (raws : List RawStore) : List StoreDef :=
+  raws.foldl (fun acc rs =>
+    let early : StoreDef := { syms := (rs.syms.take rs.nearly).reverse, maps := [], parent := rs.parent, extended := rs.extended }
+    let granted := match rs.parent.bind (fun p => acc[p]?.map fun pd => grantSymbols p pd early) with
+      | some g => g
+      | none => early
+    acc ++ [{ granted with syms := (rs.syms.drop rs.nearly).reverse ++ granted.syms, maps := rs.maps.reverse ++ granted.maps }]) []
 
 structure BCase where
   db : Db Float
@@ -326,7 +415,15 @@ def pBCase : P BCase := fun ts => do
   let (nf, r) ← pNat r
   let (tbl, r) ← rep pFmt nf r
   let (f, r) ← parseU r
-  pure ({ db := { defs := stores.map (·.1), rows := stores.map (·.2) }, root := root, fo := floatOps tbl, f := f }, r)
+  let raws := stores.map (·.1)
+  let tabs : List ((Nat × String) × ExtTab) :=
+    ((List.range raws.length).zip raws).flatMap fun (i, rs) => rs.exts.map fun (n, t) => ((i, n), t)
+  let ext : Nat → String → ExtSrc Float := fun st n =>
+    match tabs.find? (fun e => e.1.1 == st && e.1.2 == n) with
+    | some e => e.2.src
+    | none => .fn fun _ => .nil
+  pure ({ db := { defs := buildDefs raws, rows := stores.map (·.2), ext := ext, mappers := mapperOf },
+          root := root, fo := floatOps tbl, f := f }, r)
 
 def idsText (ids : List Bytes) : String :=
   if ids.isEmpty then "-" else ",".intercalate (ids.map Bytes.toWire)
@@ -340,11 +437,16 @@ def bStepModel (c : BCase) : String :=
     | .ok p => "ok " ++ p.shape ++ " " ++ idsText ids ++ " " ++ idsText ids
     | _ => "err"
 
+/-- the proviso of `query_exact_partial` -/
+def hypFlags (c : BCase) : String :=
+  if extNamesOK c.db.defs c.root c.f then "" else " H:extlink"
+
 def bStepSpec (c : BCase) : String :=
   if wellTyped (dbSpecSigma c.db.defs) c.fo c.root c.f then
-    "wt " ++ idsText (specQuery c.db c.fo c.root c.f) ++ " n=" ++ toString (storeIds c.db c.root).length ++
-      (if namesOK c.db.defs c.root c.f then "" else " H:subtail")
-  else "ill n=" ++ toString (storeIds c.db c.root).length
+    "wt " ++ idsText (specQuery c.db c.fo c.root c.f) ++ " n=" ++ toString (entitiesOf c.db c.root).length ++
+      hypFlags c ++
+      (if isChild c.db.defs c.root then " R:child" else "")
+  else "ill n=" ++ toString (entitiesOf c.db c.root).length
 
 def bStep (spec : Bool) (ts : List String) : String :=
   match pBCase ts with
